@@ -520,9 +520,10 @@ func (w *inotify) handleEvent(inEvent *unix.InotifyEvent, buf *[65536]byte, offs
 				// ENOENT means the directory is gone again already (removed,
 				// or renamed once more before we got here): that's not an
 				// error. Neither is ENOTDIR: something else has taken the
-				// name by now (rmdir d; touch d), and IN_ONLYDIR keeps us
-				// from watching that as if it were the new directory.
-				err := w.register(ev.Name, watch.flags|unix.IN_ONLYDIR, true)
+				// name by now (rmdir d; touch d, or ln -s elsewhere d), and
+				// IN_ONLYDIR|IN_DONT_FOLLOW keeps us from watching that - or
+				// what it points to - as if it were the new directory.
+				err := w.register(ev.Name, watch.flags|unix.IN_ONLYDIR|unix.IN_DONT_FOLLOW, true)
 				if err != nil && !errors.Is(err, unix.ENOENT) && !errors.Is(err, unix.ENOTDIR) {
 					w.mu.Unlock()
 					ok := w.sendError(err)
